@@ -160,6 +160,9 @@ func genValidVLA(c *RNG) rtp.VLA {
 					b = c.Pick(0, 127, 128, 16383, 16384, 2097151, 2097152, 268435455, 268435456)
 				case 1:
 					b = int(c.U64() % (1 << 56))
+				case 2:
+					// "non-negative bitrates": every int value, the 9- and 10-byte LEB128 forms included
+					b = c.Pick(1<<56-1, 1<<56, 1<<56+1, 1<<62, 1<<63-1, int(c.U64()>>1))
 				default:
 					b = c.Intn(100000)
 				}
@@ -187,7 +190,7 @@ func vlaEqual(a, b rtp.VLA) bool {
 func init() {
 	register(&Prop{
 		ID:       "C19",
-		Rule:     "valid VLAs (1-4 streams, every subset of the 16 stream x spatial slots incl. the shared-bitmask shapes and streams without layers, 1-4 temporal layers, bitrates over LEB128 size classes up to 2^56, resolution on/off) encoded by the library and by an independent rendering of the specification, decoded into a fresh and a used receiver; invalid VLAs (counts, ids, duplicates, temporal counts out of range); random, truncated and mutated byte strings for the decoder; non-trivial = at least one active layer",
+		Rule:     "valid VLAs (1-4 streams, every subset of the 16 stream x spatial slots incl. the shared-bitmask shapes and streams without layers, 1-4 temporal layers, bitrates over all LEB128 size classes up to 2^63-1, resolution on/off) encoded by the library and by an independent rendering of the specification, decoded into a fresh and a used receiver; invalid VLAs (counts, ids, duplicates, temporal counts out of range); random, truncated and mutated byte strings for the decoder; non-trivial = at least one active layer",
 		Quick:    5000,
 		Thorough: 300000,
 		Gen: func(r *RNG, tier string, n int, emit func(op int, toks ...Tok)) {
